@@ -865,6 +865,119 @@ def rule_e1(ctx):
             ctx.fail(r, fn, "cancel function not invoked", ld.line, "expired operations are no longer handed to a_cancel_fn")
 
 
+
+def rule_s3(ctx):
+    """head-of-queue service: whoever completes the head must start the next one"""
+    from .. import guards as G
+    r = ctx.rule("C02.S3", "T2", "head-of-queue service: where a submit function starts the transfer only when the new aio is the head "
+                 "of its queue (one operation in flight), every function that takes the head off that queue starts the next one "
+                 "(or re-examines the queue) before it returns: otherwise the operations queued behind it never start and never "
+                 "complete", floor=12)
+    prog = ctx.prog
+    gated = {}     # (file, queue field) -> set of start function names
+    for f in prog.functions:
+        if f.cfg_failed:
+            continue
+        apps = [c for c in f.calls(("nni_list_append", "nni_aio_list_append")) if len(c.node["args"]) == 2]
+        for a in apps:
+            q = last_field(f.expand(a.node["args"][0]))
+            av = f.expand(a.node["args"][1])
+            if not q or av.get("k") != "var":
+                continue
+            heads = G.rel_edges(f, lambda n: n.get("k") == "call" and n.get("fn") == "nni_list_first" and
+                                last_field(f.expand(n["args"][0])) == q,
+                                lambda n: n.get("k") == "var" and n["n"] == av["n"], "==")
+            if not heads:
+                continue
+            for c in f.calls():
+                if c.node.get("fn") and c.node["fn"] not in ("nni_list_first", "nni_mtx_unlock", "nni_mtx_lock") and \
+                        G.dominated(f, (c.b, c.i), heads) and prog.resolve(f, c.node["fn"]) is not None:
+                    gated.setdefault((f.file, q), set()).add(c.node["fn"])
+    def submits_inner(h, depth=0):
+        """h hands an aio that is a field of its object (&o->txaio, or a local alias of it) to some function: it starts an
+        inner operation, as opposed to trying to complete the user's aio at once"""
+        if h is None or h.cfg_failed:
+            return False
+        for c in h.calls():
+            for a in c.node["args"]:
+                a = h.expand(a) if a is not None else None
+                if a is None:
+                    continue
+                if a.get("k") == "var":
+                    ds = G.var_defs(h, a["n"])
+                    if len(ds) == 1 and ds[0][1] is not None:
+                        a = ds[0][1]
+                if a.get("k") == "un" and a.get("op") == "&" and a["e"].get("k") == "mem" and "aio" in (a["e"].get("t") or ""):
+                    if c.node.get("fn") not in ("nni_aio_result", "nni_aio_count", "nni_aio_get_msg", "nni_aio_set_msg",
+                                                "nni_aio_set_iov", "nni_aio_iov_advance", "nni_aio_iov_count", "nni_aio_abort",
+                                                "nni_aio_close", "nni_aio_stop", "nni_aio_fini", "nni_aio_init",
+                                                "nni_aio_get_output", "nni_aio_set_output", "nni_aio_set_timeout"):
+                        return True
+            if depth < 1 and c.node.get("fn"):
+                k = prog.resolve(h, c.node["fn"])
+                if k is not None and k is not h and k.file == h.file and submits_inner(k, depth + 1):
+                    return True
+        return False
+    for key in list(gated):
+        gated[key] = {n for n in gated[key] if submits_inner(prog.fn(n, key[0]) or prog.fn(n))}
+        if not gated[key]:
+            del gated[key]
+    if len(gated) < 5:
+        raise AnalysisBroken("only %d head-gated queues found" % len(gated))
+    for (file, q), starts in sorted(gated.items()):
+        for g in prog.functions:
+            if g.file != file or g.cfg_failed:
+                continue
+            for c in g.calls(("nni_list_remove", "nni_aio_list_remove")):
+                xa = g.expand(c.node["args"][-1])
+                if xa.get("k") != "var":
+                    continue
+                if c.node["fn"] == "nni_list_remove" and last_field(g.expand(c.node["args"][0])) != q:
+                    continue
+                rd = G.reaching_defs(g, xa["n"], (c.b, c.i))
+                if not rd or not all(x is not None and x.get("k") == "call" and x.get("fn") == "nni_list_first" and
+                                     last_field(g.expand(x["args"][0])) == q for _, x in rd):
+                    continue
+                serve = {(s.b, s.i) for s in g.calls() if s.node.get("fn") in starts}
+                # a helper that itself calls the start function counts (one level)
+                for s in g.calls():
+                    h = prog.resolve(g, s.node["fn"]) if s.node.get("fn") else None
+                    if h is not None and h.file == file and not h.cfg_failed and any(x.node.get("fn") in starts for x in h.calls()):
+                        serve.add((s.b, s.i))
+                if "/sp/transport/" in g.file:
+                    # an SP transport pipe that fails a user operation is finished: "we do not queue up another receive;
+                    # the protocol should notice this error and close the pipe" (tcp.c) -- closing flushes the queue
+                    serve |= {(s.b, s.i) for s in g.calls("nni_aio_finish_error")}
+                again = {(s.b, s.i) for s in g.calls("nni_list_first") if last_field(g.expand(s.node["args"][0])) == q}
+                again |= {(s.b, s.i) for s in g.calls("nni_list_empty") if last_field(g.expand(s.node["args"][0])) == q}
+                # a failed inner transfer or a closed object ends the service: the connection is dead and the owner
+                # tears the queue down (documented in the transports: "we do not queue up another receive")
+                dead = {}
+                if "/sp/transport/" in g.file:
+                    for x in g.calls("nni_aio_result"):
+                        for b, (nz, z) in g.value_edges(x).items():
+                            dead[b] = nz
+                for b, k in G.nz_edges(g, lambda n: n.get("k") == "mem" and n["f"] == "closed").items():
+                    dead.setdefault(b, k)
+
+                def eok(b, k):
+                    return not (b in dead and k == dead[b])
+                # the removal itself may sit on the dead branch
+                on_dead = not g.dominated_by((c.b, c.i), edge_ok=lambda b, k: not eok(b, k)) is False and \
+                    (c.b, c.i) not in g.reach((g.entry, 0), edge_ok=eok)
+                seen = set() if on_dead else g.reach((c.b, c.i + 1), blocked=lambda b, i, e: (b, i) in serve or (b, i) in again,
+                                                     edge_ok=eok)
+                if (g.exit, 0) in seen and g.name not in starts:
+                    path = g.find_path((c.b, c.i + 1), lambda b, i: (b, i) == (g.exit, 0),
+                                       blocked=lambda b, i, e: (b, i) in serve or (b, i) in again, edge_ok=eok)
+                    ctx.fail(r, g, "head of %s removed without starting the next" % q, c.line,
+                             "%s takes the head off %s at line %s and can return without %s and without looking at the queue "
+                             "again: operations queued behind it are never started" % (g.name, q, c.line, "/".join(sorted(starts))),
+                             g.path_lines(path))
+                else:
+                    r.ob(g, "head of %s removed line %s: next one started / queue re-examined" % (q, c.line))
+
+
 def run(ctx):   # noqa: F811
     ctx.guard(rule_a1)
     ctx.guard(rule_a2)
@@ -874,3 +987,4 @@ def run(ctx):   # noqa: F811
     ctx.guard(rule_a7)
     ctx.guard(rule_d1)
     ctx.guard(rule_e1)
+    ctx.guard(rule_s3)
